@@ -325,9 +325,34 @@ def install(I):
     B = I.builtins
     I.trace = {}
 
+    # leading parameters of the modelled numpy functions, so that keyword calls (np.insert(arr=.., obj=.., values=..)) are
+    # normalised to the positional form the models read
+    SIGS = {"insert": ["arr", "obj", "values"], "append": ["arr", "values"], "cumsum": ["a"], "cumprod": ["a"], "sum": ["a"],
+            "mean": ["a"], "max": ["a"], "amax": ["a"], "min": ["a"], "amin": ["a"], "argmax": ["a"], "minimum": ["x1", "x2"],
+            "maximum": ["x1", "x2"], "repeat": ["a", "repeats"], "tile": ["A", "reps"], "isclose": ["a", "b"], "array": ["object"],
+            "asarray": ["a"], "ones": ["shape"], "zeros": ["shape"], "searchsorted": ["a", "v"], "quantile": ["a", "q"],
+            "sqrt": ["x"], "abs": ["x"], "absolute": ["x"], "isfinite": ["x"], "isnan": ["x"], "isinf": ["x"], "all": ["a"],
+            "any": ["a"], "ones_like": ["a"], "floor": ["x"], "ceil": ["x"], "exp": ["x"], "log": ["x"]}
+
     def reg(name, f):
+        sig = SIGS.get(name)
+        if sig:
+            def g(I_, a, k, f=f, sig=sig):
+                if k and any(nm in k for nm in sig):
+                    a = list(a)
+                    k = dict(k)
+                    for idx, nm in enumerate(sig):
+                        if idx < len(a):
+                            if nm in k:
+                                raise PyRaise("TypeError", f"got multiple values for argument '{nm}'")
+                            continue
+                        if nm in k and idx == len(a):
+                            a.append(k.pop(nm))
+                return f(I_, a, k)
+        else:
+            g = f
         for pre in ("np.", "numpy."):
-            B[pre + name] = Builtin("np." + name, f)
+            B[pre + name] = Builtin("np." + name, g)
 
     B["np.inf"] = B["numpy.inf"] = XR.const(float("inf"))
     B["np.nan"] = B["numpy.nan"] = XR.const(float("nan"))
